@@ -166,12 +166,12 @@ def c02(tier):
     sc = scratch("c02")
     rng = random.Random(seed())
     quick = tier == "quick"
-    cases = list(lgrams.CURATED_GREEDY) + lgrams.random_specs(seed() + 2, 30 if quick else 400)
-    cases += lgrams.range_triple_specs(random.Random(seed() + 22), 40 if quick else 600)
+    cases = list(lgrams.CURATED_GREEDY) + lgrams.random_specs(seed() + 2, 30 if quick else 200)
+    cases += lgrams.range_triple_specs(random.Random(seed() + 22), 40 if quick else 250)
     cn = lgrams.card_nesting_specs()
     cases += cn if not quick else cn[seed() % 2::2]
     cases = json.loads(json.dumps(cases))
-    X = lex_explore(rep, sc, cases, rng, 500 if quick else 4000, 150 if quick else 600, 20 if quick else 120)
+    X = lex_explore(rep, sc, cases, rng, 500 if quick else 2500, 150 if quick else 400, 20 if quick else 120)
     acc, lruns = X["acc"], X["lruns"]
     bad, ro = run_lexobs(sc, X["lcases"], lruns)
     for b in bad:
@@ -234,7 +234,7 @@ def c07(tier):
         rng.shuffle(perms)
         perms = perms[:40]
     cases = json.loads(json.dumps(list(lgrams.CURATED_MODES) + perms))
-    X = lex_explore(rep, sc, cases, rng, 1500 if quick else 8000, 1500 if quick else 8000, 10 if quick else 60, alpha_cap=6)
+    X = lex_explore(rep, sc, cases, rng, 1500 if quick else 3000, 1500 if quick else 3000, 10 if quick else 60, alpha_cap=6)
     acc, lruns = X["acc"], X["lruns"]
     bad, ro = run_lexobs(sc, X["lcases"], lruns)
     full = [r for r in lruns if r["full"]]
@@ -285,7 +285,7 @@ def c08(tier):
     def mode_of(c):
         # the whole stream is determined when the non-greedy rule has a non-empty prefix that no other rule shares
         return "stream" if ((c["id"].startswith("ng-cmt-") or c["id"].startswith("ng-lt-")) and "inmode" not in c["id"]) else "pertoken"
-    X = lex_explore(rep, sc, cases, rng, 2500 if quick else 20000, 300 if quick else 1500, 15 if quick else 80, ng=mode_of, alpha_cap=5)
+    X = lex_explore(rep, sc, cases, rng, 2500 if quick else 6000, 300 if quick else 1000, 15 if quick else 80, ng=mode_of, alpha_cap=5)
     acc, lruns = X["acc"], X["lruns"]
     bad, ro = run_lexobs(sc, X["lcases"], lruns)
     full = [r for r in lruns if r["full"]]
@@ -365,7 +365,7 @@ def c11(tier):
     cases = list(lgrams.nullable_cases()) + list(lgrams.CURATED_GREEDY) + list(lgrams.CURATED_MODES)
     cases += lgrams.ng_cases()[-4:] + lgrams.random_specs(seed() + 11, 15 if quick else 200)
     cases = json.loads(json.dumps(cases))
-    X = lex_explore(rep, sc, cases, rng, 400 if quick else 3000, 400 if quick else 3000, 60 if quick else 300, alpha_cap=5)
+    X = lex_explore(rep, sc, cases, rng, 400 if quick else 1500, 400 if quick else 1500, 60 if quick else 300, alpha_cap=5)
     acc, lruns = X["acc"], X["lruns"]
     full = [r for r in lruns if r["full"]]
     tv, rt = run_lextrace(sc, X["lcases"], full, timeout=2400)
